@@ -148,7 +148,7 @@ DEFS += [
     # ---------------------------------------------------------------- more shapes of generated code (thorough tier unless noted)
     # ten ranges to one non-accepting target: the binary-search table shape inside a step harness (also in a right context)
     flat('c02_table_shape', [R(cat(cset(rng('a', 'b'), rng('d', 'e'), rng('g', 'h'), rng('j', 'k'), rng('m', 'n'), rng('p', 'q'), rng('s', 't'), rng('v', 'w'), rng('y', 'z'),
-                                        rng('0', '4'), rng('6', '9')), c('!'))), R(cset(rng('a', 'z')))], ['C02', 'C13'], N=2, m=1, Nt=3, unwind=12),
+                                        rng('0', '4'), rng('6', '9')), c('!'))), R(cset(rng('a', 'z')))], ['C02', 'C13', 'C09'], N=2, m=1, Nt=3, unwind=12),
     flat('c04_table_in_ctx', [R(c('x'), ctx=cat(cset(rng('a', 'b'), rng('d', 'e'), rng('g', 'h'), rng('j', 'k'), rng('m', 'n'), rng('p', 'q'), rng('s', 't'), rng('v', 'w'), rng('y', 'z'),
                                                      rng('0', '4'), rng('6', '9')), c('!'))), R(c('x')), R(ANY)], ['C04'], N=3, m=1, unwind=12, tier='thorough', Nt=3),
     # a state with more than 8 range transitions AND character transitions on code points at the start / end / inside of those ranges
@@ -195,6 +195,38 @@ DEFS += [
     flat('c14_str_input', [R(plus(cset(rng('a', 'z'))), 'return'), R(cat(ANY, c('!')), 'return'), R(ANY, 'return')], ['C14'],
          N=2, m=1, Nt=2, via='str', width=True, unwind=10),
     flat('c14_str_input_skip', [R(cset(' ', '\n', '\t'), 'skip'), R(ANY, 'return')], ['C14'], N=2, m=2, Nt=2, via='str', width=True, unwind=12),
+]
+
+
+def _ten_sets():
+    names = ['Init'] + ['S%d' % i for i in range(1, 10)]
+    sets = []
+    for i, n in enumerate(names):
+        nxt = names[(i + 1) % len(names)]
+        far = names[(i + 4) % len(names)]
+        # every set: "ab" (multi-character literal => inlined states before later entry states) switches on, 'x' returns its own token,
+        # 'j' jumps four sets ahead and returns
+        sets.append((n, [R(s('ab'), 'switch_return', to=nxt), R(c('x'), 'return'), R(c('j'), 'switch_return', to=far)]))
+    return sets
+
+
+# ---------------------------------------------------------------- definitions added after the round-3 seeds had been measured (DESIGN 11.6)
+DEFS += [
+    # more than eight rule sets, entry states behind inlined states (a table-driven `switch` must renumber)
+    multi('c03_ten_sets', _ten_sets(), ['C03'], N=2, m=1, Nt=3),
+    # a fallible rule that returns Err inside a non-Init rule set, and one that switches and returns Err: the rule set must follow the switch only
+    multi('c03_err_in_set', [
+        ('Init', [R(c('['), 'switch', to='S'), R(c('i'), 'return'), R(c('e'), 'err')]),
+        ('S', [R(c('r'), 'return'), R(c('!'), 'err'), R(c(']'), 'switch_return', to='Init')]),
+    ], ['C03', 'C07', 'C08'], N=2, m=2, Nt=3),
+    # `*` / `?` in the tail of an alternative or of an optional group (their continuation state is shared with a sibling path)
+    flat('c02_star_in_alt_tail', [R(cat(c('x'), alt(c('b'), star(c('a'))))), R(cat(c('w'), opt(cat(c('y'), star(c('z')))))), R(c('a')), R(c('z')), R(c('b'))],
+         ['C02', 'C01'], N=3, m=1, Nt=4),
+    # a literal that shares its successor with a range AND lies inside another range with a different successor
+    flat('c02_char_in_foreign_range', [R(cset(rng('a', 'z'), rng('0', '9'))), R(cat(alt(c('c'), cset(rng('0', '9'))), c('y'))), R(cat(alt(c('m'), cset(rng('0', '4'))), c('!')))],
+         ['C02', 'C01'], N=2, m=1, Nt=3),
+    # reset_match() and return_ in the same action: the token must carry the (empty) span after the reset
+    flat('c10_reset_then_return', [R(cat(c('#'), plus(cset(rng('a', 'c')))), 'reset_return'), R(c('a'), 'return'), R(c(' '), 'skip')], ['C10', 'C06'], N=3, m=1),
 ]
 
 
